@@ -29,7 +29,8 @@ import traceback
 from typing import Any, Callable, Iterable
 
 VERIF = os.path.dirname(os.path.dirname(os.path.abspath(__file__)))
-LEAN_DIR = os.path.join(VERIF, "lean")
+# IRVERIF_LEAN_DIR: development only (a private copy of lean/ while proofs are being written)
+LEAN_DIR = os.environ.get("IRVERIF_LEAN_DIR") or os.path.join(VERIF, "lean")
 DRIVER = os.path.join(LEAN_DIR, ".lake", "build", "bin", "irdriver")
 EVIDENCE_DIR = os.path.join(VERIF, "evidence")
 REPLAY_DIR = os.path.join(VERIF, "replays")
